@@ -4,14 +4,9 @@ From Coq Require Import List NArith ZArith.
 From Coq.Strings Require Import Byte.
 From Coq Require Import Extraction ExtrOcamlBasic.
 From GI Require Import Lib.Bytes Gen.CacheTrimConsts CacheTrim.CacheTrim CacheTrim.CacheTrimConc.
-(* the segments of cache.go translated by harness/go2coq (Gen/CacheSrc.v) with their library
-   denotations (Cache/SrcLib.v): run by the driver next to the model (requests src...) *)
-From GI Require Lib.GoSem Lib.GoSemSeg Cache.SrcLib Gen.CacheSrc.
 Extraction Language OCaml.
 Extraction "extracted/cachetrim/model.ml" Byte.of_N Byte.to_N Z.add Z.mul Z.opp Z.ltb
   trim trim_err trim_prefix used lookup store step run decimal parse_int trim_due trim_space is_entry_name
   c13_holds_on holds_from stated_limit c_run c_init trim_cutoff
   mtime_interval trim_interval trim_limit trim_file_name index_suffix data_suffix
-  open_subdir_count
-  CacheSrc.src_Cache_used_fresh CacheSrc.src_Cache_Trim_due CacheSrc.src_Cache_Trim_cutoff
-  CacheSrc.src_Cache_trimSubdir_candidate CacheSrc.src_Cache_trimSubdir_stale time_of_ns.
+  open_subdir_count.
